@@ -69,8 +69,10 @@ def main():
     for rnd in range(2, (3 if tier == 'quick' else 5)):
         roots = {}
         for n, r in results.items():
-            for rec in r['records']:
+            for rec in sorted(r['records'], key=lambda x: 0 if x.get('status') == 'sat' else 1):
                 if rec.get('kind') == 'side' and rec['status'] in ('sat', 'unknown') and not rec.get('explored'):
+                    if len(roots.get(n, [])) >= (6 if tier == 'quick' else 24):
+                        continue            # bounded per round; the rest is reported as unexplored
                     rec['explored'] = True
                     roots.setdefault(n, []).append(dict(prefix=[tuple(x) for x in rec['prefix']], env=rec.get('env')))
         if not roots:
@@ -144,6 +146,13 @@ def main():
                 n_sat += 1
                 key = json.dumps(rec.get('env', {}), sort_keys=True)
                 rep, detail = runner.replay(pid, n, rec.get('env', {}), tier)
+                for alt in rec.get('alt_envs', []):
+                    if rep:
+                        break
+                    rep, detail = runner.replay(pid, n, alt, tier)
+                    if rep:
+                        rec['env'] = alt
+                        key = json.dumps(alt, sort_keys=True)
                 if rep:
                     if key in seen_models:
                         continue
